@@ -310,10 +310,16 @@ def run_full_case(seed, idx, rec):
         try:
             stud = c05.build(cas)
             s_res = stud.evaluate()
-            bonf = TestBonferroni(name='b', test=c05.build(cas),
+            # the level of the wrapped bin-by-bin test is its own business:
+            # the corrections only use its p-values
+            inner = cas if rng.random() < 0.6 else dict(
+                cas, alpha=rng.choice([1e-9, 1e-4, 0.3, 0.9]))
+            if inner is not cas:
+                rec.count('wrapped_test_with_another_level')
+            bonf = TestBonferroni(name='b', test=c05.build(inner),
                                   alpha=cas['alpha'])
             b_res = bonf.evaluate()
-            holm = TestHolmBonferroni(name='h', test=c05.build(cas),
+            holm = TestHolmBonferroni(name='h', test=c05.build(inner),
                                       alpha=cas['alpha'])
             h_res = holm.evaluate()
             verdicts = bool(s_res), bool(b_res), bool(h_res)
